@@ -715,3 +715,23 @@ func TestVerif_C03_NackComposition(t *testing.T) {
 }
 
 var _ = codecs.PacketFlags
+
+var c12rRec = verifkit.New("TestVerif_C12_RtpSequences",
+	"the stream generator of C01..C03 (VP8/VP9/H264, layers, any start, loss, late and duplicate arrivals, source numbering jumps beyond the resynchronisation window, NACKs for sent, "+
+		"withheld, future and far-away numbers, cache resizes) through the real rtpDownTrack.Write / gotNACK with every value oracle switched off: whatever sequence of packets and "+
+		"feedback a publisher and a receiver produce, forwarding does not panic (in the server these run in goroutines nobody recovers: the process would die); "+
+		"non-trivial = a numbering jump or a NACK after at least one withheld packet; distinct by withheld set + event list")
+
+func TestVerif_C12_RtpSequences(t *testing.T) {
+	defer c12rRec.Flush()
+	rapid.Check(t, func(t *rapid.T) {
+		var h *fwdHarness
+		if rapid.Bool().Draw(t, "withResync") {
+			h = runForward(t, fwdOracles{}, true, false)
+		} else {
+			h = runForward(t, fwdOracles{}, false, true)
+		}
+		c12rRec.Case(len(h.w) > 0 && (h.nResync > 0 || h.nRetx > 0), fwdCanon(h), fwdSample(h))
+		fwdClasses(c12rRec, h)
+	})
+}
